@@ -1,6 +1,7 @@
 package main
 
 import (
+	"os/exec"
 	"encoding/json"
 	"fmt"
 	"os"
@@ -31,13 +32,20 @@ const verifRoot = "/verif"
 
 // loadModule type-checks the named packages of one module from the files on disk (with -tags verif), builds SSA and
 // reads every contract file that sits beside the loaded code plus the external specs under /verif/contracts.
-func loadModule(name, dir string, patterns []string) (*Module, error) {
+func loadModule(name, dir string, patterns []string, corpus string) (*Module, error) {
 	t0 := time.Now()
 	cfg := &packages.Config{
 		Mode:       packages.LoadAllSyntax,
 		Dir:        dir,
 		BuildFlags: []string{"-tags=verif"},
 		Env:        append(os.Environ(), "GOFLAGS=-mod=mod", "GOPROXY=off", "GOSUMDB=off", "GOTOOLCHAIN=local"),
+	}
+	if corpus != "" {
+		ov, err := generateCorpus(dir, corpus)
+		if err != nil {
+			return nil, fmt.Errorf("stage G (generator corpus): %v", err)
+		}
+		cfg.Overlay = ov
 	}
 	pkgs, err := packages.Load(cfg, patterns...)
 	if err != nil {
@@ -125,4 +133,56 @@ func (m *Module) resolve(pat string) []*ssa.Function {
 	}
 	sort.Slice(out, func(i, j int) bool { return fname(out[i]) < fname(out[j]) })
 	return out
+}
+
+// generateCorpus (stage G) builds and runs the REAL generator of the module under test (cmd.ReadManifest +
+// cmd.GenerateCode, through /verif/gentool) on a corpus manifest, into a temporary directory outside /repo and /verif
+// that is removed before returning, and hands the emitted Go files to the loader as an overlay: they appear as the virtual
+// package <module>/internal/govccorpus/... without anything being written to the repository.
+func generateCorpus(moduleDir, manifest string) (map[string][]byte, error) {
+	tmp, err := os.MkdirTemp("", "govc-corpus-*")
+	if err != nil {
+		return nil, err
+	}
+	defer os.RemoveAll(tmp)
+	tool := filepath.Join(tmp, "gentool")
+	out := filepath.Join(tmp, "out")
+	os.MkdirAll(tool, 0755)
+	os.MkdirAll(out, 0755)
+	src, err := os.ReadFile(filepath.Join(verifRoot, "gentool", "main.go"))
+	if err != nil {
+		return nil, err
+	}
+	os.WriteFile(filepath.Join(tool, "main.go"), src, 0644)
+	gomod := fmt.Sprintf("module gentool\n\ngo 1.18\n\nrequire github.com/PapaCharlie/go-restli/v2 v2.0.0\n\nreplace github.com/PapaCharlie/go-restli/v2 => %s\n", moduleDir)
+	os.WriteFile(filepath.Join(tool, "go.mod"), []byte(gomod), 0644)
+	if sum, err := os.ReadFile(filepath.Join(moduleDir, "go.sum")); err == nil {
+		os.WriteFile(filepath.Join(tool, "go.sum"), sum, 0644)
+	}
+	cmd := exec.Command("go", "run", ".", manifest, out)
+	cmd.Dir = tool
+	cmd.Env = append(os.Environ(), "GOFLAGS=-mod=mod", "GOPROXY=off", "GOSUMDB=off", "GOTOOLCHAIN=local")
+	if b, err := cmd.CombinedOutput(); err != nil {
+		return nil, fmt.Errorf("generator failed: %v\n%s", err, string(b))
+	}
+	ov := map[string][]byte{}
+	err = filepath.Walk(out, func(p string, info os.FileInfo, err error) error {
+		if err != nil || info.IsDir() || !strings.HasSuffix(p, ".go") || strings.HasSuffix(p, "_test.gr.go") {
+			return err
+		}
+		rel, _ := filepath.Rel(out, p)
+		b, err := os.ReadFile(p)
+		if err != nil {
+			return err
+		}
+		ov[filepath.Join(moduleDir, "internal", "govccorpus", rel)] = b
+		return nil
+	})
+	if err != nil {
+		return nil, err
+	}
+	if len(ov) == 0 {
+		return nil, fmt.Errorf("the generator emitted no Go file")
+	}
+	return ov, nil
 }
